@@ -256,10 +256,12 @@ func (l *queue) Empty() bool {
 	if l.head == nil || l.tail == nil || len(l.segments) == 0 {
 		return true
 	}
-	if l.head == l.tail && l.head.pos == l.tail.filePos()-footerSize {
-		return true
+	for _, s := range l.segments {
+		if !s.empty() {
+			return false
+		}
 	}
-	return false
+	return true
 }
 
 // diskUsage returns the total size on disk used by the queue
@@ -740,6 +742,14 @@ func (l *segment) close() error {
 	}
 	l.file = nil
 	return nil
+}
+
+// empty returns true if the segment holds no unread block, neither on disk
+// nor in the write buffer
+func (l *segment) empty() bool {
+	l.mu.RLock()
+	defer l.mu.RUnlock()
+	return l.pos == l.size-footerSize && (l.buf == nil || l.buf.Len() == 0)
 }
 
 func (l *segment) lastModified() (time.Time, error) {
